@@ -1,0 +1,43 @@
+//go:build verif
+// +build verif
+
+package netpoll
+
+// Contracts for descriptors, listeners and dialing (gocv). Comment-only, build tag verif.
+
+// the descriptor number an *os.File owns (ghost mirror of its private field)
+//@ ghost field os.File.gfd int
+
+//@ func sysSocket
+//@   property C14 C15
+//@   results fd err
+//@   ensures (err == nil) == (fd != -1)
+//@   ensures err == nil ==> fd >= 0 && !old(fdopen[fd]) && fdopen[fd]
+//@   ensures forall x int :: (err != nil || x != fd) ==> fdopen[x] == old(fdopen[x])
+//@   modifies fdopen, closecnt
+
+// a listener made by ConvertListener owns exactly the descriptor of its duplicate file
+//@ pred lnok(ln *listener) = ln.file != nil ==> ln.fd == ln.file.gfd && fdopen[ln.fd]
+
+//@ func (*listener).Close
+//@   property C15
+//@   requires lnok(ln) && (ln.file == nil ==> ln.fd == 0)
+//@   ensures result == nil
+//@   ensures old(ln.file != nil) ==> !fdopen[ln.fd] && closecnt[ln.fd] == old(closecnt[ln.fd]) + 1
+//@   ensures forall x int :: x != ln.fd ==> fdopen[x] == old(fdopen[x]) && closecnt[x] == old(closecnt[x])
+//@   modifies fdopen, closecnt
+
+//@ func (*listener).parseFD
+//@   property C15
+//@   requires ln.ln != nil
+//@   ensures err == nil ==> ln.file != nil && lnok(ln) && !old(fdopen[ln.fd])
+//@   ensures err != nil ==> forall x int :: fdopen[x] == old(fdopen[x])
+//@   ensures forall x int :: x != ln.fd ==> fdopen[x] == old(fdopen[x])
+//@   modifies ln.file, ln.fd, fdopen
+
+//@ func ConvertListener
+//@   property C15
+//@   requires l != nil
+//@   results nl err
+//@   ensures err != nil ==> forall x int :: fdopen[x] == old(fdopen[x])
+//@   modifies fdopen, closecnt
